@@ -91,6 +91,15 @@ def rounding_bound(u, w, D):
     return 1e-12 * tot
 
 
+# inputs on which the unchanged tree once failed (kept so that the defect is reported again if it returns)
+PINNED = [
+    # fit raised AssertionError: a community with all-zero affinities gave 0/0 in the membership update (fix e1f0483)
+    {"N": 8, "K": 3, "edges": [(1, 3, 4), (4, 6), (1, 4, 6), (1, 3, 7), (1, 3, 6)], "weights": None, "family": "zero",
+     "seed": 72647, "n_realizations": 2, "max_iter": 25, "every": 1, "normalizeU": False, "baseline_r0": True,
+     "min_value_par": 1e-05, "weighted_L": False},
+]
+
+
 def config(rng, i, tier):
     N = rng.randint(4, 8)
     D = rng.randint(2, 4)
@@ -335,7 +344,7 @@ def end_event(r, ends, code):
 
 def validate(res, tier, rng, only=None):
     n_cfg = 480 if tier == "quick" else 6000
-    cfgs = [config(rng, i, tier) for i in range(n_cfg)] if only is None else only
+    cfgs = ([config(rng, i, tier) for i in range(n_cfg)] + [dict(c) for c in PINNED]) if only is None else only
     cases, cidx, traces, tidx, infos = [], [], [], [], []
     for i, cfg in enumerate(cfgs):
         hy, mt, tr, info = observe(cfg, i)
